@@ -5,6 +5,11 @@ ROOT = os.path.dirname(os.path.dirname(os.path.abspath(__file__)))
 ALL = ["C%02d" % i for i in range(1, 21)]
 # id -> (category, engine, technique, level text, level note, design ref)
 CHECKS = {
+ "C02": ("model_checking", "E2-state",
+         "explicit-state BFS over operation histories of the real ocimem.Registry with a reference-model oracle and full read sweep in every state",
+         "Breadth-first search over all histories (alphabet ~110 operations: pushes with good/bad descriptors, 9 manifest kinds tagged/untagged, mounts, deletes, one chunked upload session with write/resume/commit/cancel, invalid names) to depth 2 (quick) / 4 with caps (thorough) from the empty registry and from 6 seeded non-initial states, in both configurations, plus a closed mini-universe explored to FIXPOINT (every reachable state, any history length). A state is the canonical reflective dump of the real registry object graph plus upload handles; every transition is a real call compared with a three-valued reference model, then ~260 read/resolve/list queries are compared with the model. All traces are implementation traces.",
+         "Bounded universe (2+1 repositories, 3 blobs, 9 manifests, 2 tags, <=3-byte uploads). Codes compared only where interface.go documents them; content-free repositories may be unknown or empty; silent cases are three-valued.",
+         "DESIGN.md 3 C02"),
  "C09": ("exploration", "E4-enum",
          "bounded exhaustive enumeration: all subsets and all ordered pairs of a small scope universe against a bitmask set model",
          "All 2^8 (quick) / 2^13 (thorough) subsets of a universe of resource scopes chosen one per branch of scope.go (known/unknown actions incl. one sorting between pull and push, catalog sentinel, empty repository name, opaque word, unknown type, registry:catalog:pull), built by every construction route (NewScope sorted/permuted/duplicated, ParseScope of plain, permuted, comma-joined text, Union results, zero value, unlimited) and all ordered pairs for Union/Contains/Equal; Iter order, early stop, Len, Holds for every universe element, print/parse round trip, receiver text preservation. Exhaustive over the universe.",
@@ -15,6 +20,11 @@ CHECKS = {
          "AccessChecker: all 512 allow/deny assignments to the 9 (repository, access kind) slots x every sequence of <= 2 (thorough <= 3) of the 21 invocations (18 methods, three mount shapes incl. from==to, writer use after PushBlobChunked*) on ONE wrapper instance; Select: all allow subsets; listings: all backend subsets x allowed subsets of 5 names x start points x stop-after-k x backend-error-after-j. Oracle: rejected => zero backend calls and one of the policy's own errors (Select: NAME_UNKNOWN / DENIED for write); allowed => backend call log and result identical to calling a twin backend directly; no consumer calls after stop/error. The space is finite and fully enumerated.",
          "Access kind per method taken from the AccessKind documentation; listing items judged only where read and list decisions agree.",
          "DESIGN.md 3 C12"),
+ "C13": ("model_checking", "E2-state",
+         "exhaustive enumeration of hostile names/scopes against a recording backend plus BFS over histories through Sub(ocimem) checked against the restricted-registry model",
+         "(a) confinement: 2 prefixes x 17 methods x 18 caller names (dot, dot-dot, escaping, leading/trailing/double slash, upper case; both mount arguments) x 11 context scopes (incl. unlimited and names shaped like the prefix): a backend argument that is a valid repository name must be exactly prefix/n, and the backend context scope must equal the model rewrite; (b) listings: all subsets of a sibling universe (foo, foo-x/a, foo/a, ..., fooey/x) x start points x stop-after-k x backend-error-after-j; (c) equivalence: BFS to depth 2 (quick) / 3 (thorough) over histories through Sub(ocimem, prefix) incl. hostile names, compared with the reference registry model by full read sweep in every state, and the backend's sibling repositories must stay bit-identical.",
+         "A backend argument that is not a syntactically valid repository name is taken to reach nothing (backends validate names). RequestInfo scopes are not part of the claim.",
+         "DESIGN.md 3 C13"),
  "C17": ("exploration", "E4-enum",
          "bounded exhaustive enumeration of all strings up to length 6 over an 11-symbol alphabet plus grammar-directed component products, against hand-written recognisers",
          "Every string of length <= 5 (quick) / <= 6 (thorough) over {a,A,0,.,:,/,@,-,_,[,]} and the product of 17 hosts x 22 repositories x 12 tags x 13 digests (valid and invalid, boundary lengths 128/129, 255/256): no panic from any exported ociref/ociregistry validity function or parser; parse ok => print equals input and each part valid and within its limit; Parse agrees with ParseRelative; every independently valid partition with a host is recovered; predicates equal the independent recogniser on every string incl. empty; routing agreement through ociserver with a recording backend (accepted as repository/tag/digest iff the predicate holds; backend never sees an invalid argument).",
